@@ -211,7 +211,7 @@ pub fn run(sut: &dyn Sut, tier: Tier) -> ! {
     let mut stats = Stats::new();
     run.canaries(&mut |v| eval_replay(sut, v));
     let rounds = tier.pick(1, 6);
-    let n = tier.pick(400, 1600);
+    let n = tier.pick(640, 1600);
     let p = C01 { hazards: false };
     for r in 0..rounds {
         if run_round(&p, sut, &mut run, &mut stats, r as u64 + 1, n, (200, 900)) {
